@@ -74,6 +74,10 @@ structure St where
   connVer : List (String × Nat) := []
   paused : List String := []                  -- connections whose scripted client has stopped reading
   held : List Out := []                       -- what the broker wrote to them meanwhile, in order
+  -- keep-alive: conn ↦ (interval in ms = (ka/2 + ka) s, the read deadline readLoop sets after every packet; model time at
+  -- which it runs out). An environment step of the driver, not of `Model/Broker.lean`: when the deadline passes during a
+  -- `sleep` the connection ends abnormally (`closeIn`) at that instant.
+  ka : List (String × Nat × Nat) := []
 
 def St.rxOf (st : St) (cid : String) : List Rx := ((st.rx.find? (·.1 == cid)).map (·.2)).getD []
 def St.setRx (st : St) (cid : String) (l : List Rx) : St := { st with rx := (cid, l) :: st.rx.filter (·.1 != cid) }
@@ -150,10 +154,17 @@ def step (st : St) (line : String) : St × String :=
     -- real time moves a little between two ops (whole-second comparisons at a boundary see "later")
     let st := { st with opIndex := st.opIndex + 1, b := { st.b with now := st.b.now + 1 } }
     let (pos, m) := kvSplit rest
+    -- a packet from a connection pushes its read deadline out
+    let st := match pos.head? with
+      | some cn => { st with ka := st.ka.map (fun (e : String × Nat × Nat) => if e.1 == cn then (e.1, e.2.1, st.b.now + e.2.1) else e) }
+      | none => st
     let b := st.b
     match op, pos with
     | "conn", cn :: cid :: _ =>
       let v := getN m "v" 4
+      let kaReq := getN m "ka" 0
+      let kaEff := if v == 5 then min kaReq b.cfg.maxKeepAlive else kaReq
+      let st := { st with ka := (st.ka.filter (fun (e : String × Nat × Nat) => e.1 != cn)) ++ (if kaEff == 0 then [] else [(cn, (kaEff / 2 + kaEff) * 1000, b.now + (kaEff / 2 + kaEff) * 1000)]) }
       let r : ConnectReq := { conn := cn, cid := unesc cid, v := v, clean := getN m "cs" 1 == 1, se := getO m "se", rm := getO m "rm",
                               mp := getO m "mp", ta := getO m "ta", ka := getN m "ka" 0,
                               will := match getS m "will" with | some w => parseWill w v | none => none }
@@ -301,7 +312,13 @@ def step (st : St) (line : String) : St × String :=
       let mine := st.held.filter (·.conn == cn)
       let st := { st with paused := st.paused.filter (· != cn), held := st.held.filter (·.conn != cn) }
       finish st { b with out := mine ++ b.out }
-    | "sleep", ms :: _ => finish st (b.sleep (natOf ms))
+    | "sleep", ms :: _ =>
+      -- connections whose read deadline runs out during the sleep end (abnormally) at that instant, earliest first
+      let target := b.now + natOf ms
+      let due := (st.ka.filter (fun (e : String × Nat × Nat) => e.2.2 ≤ target && (b.cli? e.1).isSome)).mergeSort (fun x y => x.2.2 ≤ y.2.2)
+      let b := due.foldl (fun (acc : B) (e : String × Nat × Nat) => (acc.sleep (e.2.2 - acc.now)).closeIn e.1) b
+      let st := { st with ka := st.ka.filter (fun (e : String × Nat × Nat) => !(due.any (fun (d : String × Nat × Nat) => d.1 == e.1))) }
+      finish st (b.sleep (target - b.now))
     | _, _ => (st, "bad-op")
   | [] => (st, "bad-op")
 
